@@ -284,6 +284,10 @@ def gen_scratch(prop, job, dest, t1=True, extra_tests=None, cap=None, release=Fa
                 s = t1_vec_rewrite(s, 'shared/src/%s.rs' % m, v1=(job.get('vec_model') == 'v1'))
             if t1s and m in job.get('t1_vec_inline', []):
                 s = t1_vec_rewrite(s, 'shared/src/%s.rs' % m, inline=True)
+            for a, b in (job.get('subst_shared', {}).get(m, []) if t1s else []):
+                if a not in s:
+                    raise Inconclusive('shared/src/%s.rs: expected text %r not found' % (m, a))
+                s = s.replace(a, b)
             inj = job.get('inject')
             if inj and inj['into'] == m:
                 body = read(os.path.join(hdir, inj['file']))
@@ -487,11 +491,19 @@ def parse_kani_log(txt):
         if m: st['covers_sat'] = int(m.group(1)); st['covers_n'] = int(m.group(2))
         r['oom'] = bool(re.search(r'out of memory|Out of memory|std::bad_alloc|Status: ERROR|CBMC failed|memory exhausted', body, re.I))
         # concrete playback text (if requested)
-        pm = re.search(r'Concrete playback unit test for `[^`]*`:\n```\n(.*?)```', body, re.S)
-        if pm:
+        # Kani prints one playback test per failing check AND per satisfied cover: keep the tests of failing checks only
+        pbs = []
+        for pm in re.finditer(r'Concrete playback unit test for `[^`]*`:\n```\n(.*?)```', body, re.S):
             t = pm.group(1)
+            km = re.search(r'Check for `(\w+)`', t)
+            kind = km.group(1) if km else 'unknown'
             # drop Kani's doc-comment header: a multi-line assertion text breaks the `///` comment
-            r['playback'] = t[t.index('#[test]'):] if '#[test]' in t else t
+            src = t[t.index('#[test]'):] if '#[test]' in t else t
+            if kind != 'cover' and src not in pbs:
+                pbs.append(src)
+        if pbs:
+            r['playback'] = pbs[0]
+            r['playbacks'] = pbs
         r['functions'] = sorted(set(re.findall(r'in function ([\w:<>&, ]+)', body)))
         res[name] = r
     return res
@@ -665,8 +677,8 @@ def playback_extract(prop, job, h, root):
         rc, secs, to = run_cmd(kani_cmd(job, [h['name']], dest, playback=True), dest, h.get('timeout', 300) * 2 + 240, mem, logp)
         parsed = parse_kani_log(read(logp))
         for k, v in parsed.items():
-            if k.split('::')[-1] == h['name'] and v.get('playback'):
-                return v['playback']
+            if k.split('::')[-1] == h['name'] and v.get('playbacks'):
+                return v['playbacks']
         return None
     finally:
         budget_release(key)
@@ -775,15 +787,30 @@ def cmd_check(prop, tier, only, keep, seed):
                 h = [x for x in job['harnesses'] if x['name'] == hname][0]
                 failed = ph['detail'] if isinstance(ph['detail'], list) else [{'desc': str(ph['detail']), 'loc': '', 'id': '', 'status': 'FAILURE'}]
                 log('[vk] %s: solver reports %d failing check(s); extracting a concrete trace ...' % (hname, len(failed)))
-                test_src = playback_extract(prop, job, h, root)
-                if not test_src:
+                tests = playback_extract(prop, job, h, root)
+                if not tests:
                     ph['replay'] = 'no concrete trace could be produced'
                     inconclusive.append('%s: solver says FAILED (%s) but no concrete trace could be produced for native replay'
                                         % (hname, failed[0]['desc']))
                     continue
-                rep_dev, tail_dev = native_replay(prop, job, hname, test_src, root, False)
-                rep_rel, tail_rel = native_replay(prop, job, hname, test_src, root, True)
-                ph['replay'] = {'dev_reproduces': rep_dev, 'release_reproduces': rep_rel}
+                # one playback test per failing check: replay them in turn until one reproduces natively
+                runs = max(1, int(h.get('replay_runs', 1)))
+                rep_dev = rep_rel = None
+                tail_dev = tail_rel = ''
+                test_src = tests[0]
+                for cand in tests[:6]:
+                    for _ in range(runs):
+                        rep_dev, tail_dev = native_replay(prop, job, hname, cand, root, False)
+                        if rep_dev:
+                            break
+                    for _ in range(runs):
+                        rep_rel, tail_rel = native_replay(prop, job, hname, cand, root, True)
+                        if rep_rel:
+                            break
+                    test_src = cand
+                    if rep_dev or rep_rel:
+                        break
+                ph['replay'] = {'dev_reproduces': rep_dev, 'release_reproduces': rep_rel, 'candidates': len(tests)}
                 if rep_dev is None and rep_rel is None:
                     write(os.path.join(VERIF, 'evidence', 'logs', '%s-%s.nonrepro.rs' % (prop, hname)), test_src)
                     inconclusive.append('%s: solver says FAILED (%s) but the native replay could not be built or run (see evidence/logs)'
